@@ -197,6 +197,11 @@ def all_cases(tier):
         if 'f' in c['cols'] and c.get('components') is None and \
                 (tier == 'thorough' or (c.get('nrow', 3) == 3 and not c.get('derived'))):
             be.append(dict(c, f32=True))
+        # text columns whose category codes have been jittered for display (CategoricalComponent.jitter): the codes
+        # are then no longer integers, the text is unchanged
+        if 's' in c['cols'] and c.get('components') is None and \
+                (tier == 'thorough' or (c.get('nrow', 3) == 3 and not c.get('derived'))):
+            be.append(dict(c, jitter=True))
     return cases + be + session_cases(tier, pal)
 
 
@@ -224,6 +229,8 @@ def build(c):
         cols = [(name, k, v.astype('float32') if v.dtype.kind == 'f' else v) for name, k, v in cols]
     for name, k, v in cols:
         d.add_component(v.copy(), name)
+        if c.get('jitter') and k == 's':
+            d.get_component(d.id[name]).jitter('uniform')
     if c.get('derived'):
         name, k, v = [x for x in cols if x[1] in 'fin'][0]
         d[DERIVED] = d.id[name] * 2
